@@ -237,6 +237,11 @@ package sftp
 //@   property C20
 //@   ensures result != nil
 
+//@ func errFromFailureStatus
+//@   property C20, C13, C01
+//@   requires len(data) >= 4
+//@   ensures result != nil
+
 //@ func normaliseError
 //@   property C20, C13, C10
 //@   ensures err == nil ==> result == nil
@@ -255,13 +260,8 @@ package sftp
 //@   loop 1 invariant 0 <= n && n <= len(b) && fileOK(f)
 //@   assert before call (*clientConn).sendPacket#1: arg3.(*sshFxpReadPacket).Offset == uint64(off) + uint64(n) && arg3.(*sshFxpReadPacket).Len == uint32(len(b) - n) && uint64(arg3.(*sshFxpReadPacket).Len) == uint64(len(b) - n) && arg3.(*sshFxpReadPacket).Handle == f.handle && arg3.(*sshFxpReadPacket).ID == id
 //@   assert before call copy#1: arg0 == b[n:]
-//@   update after call normaliseError#1: ghost.readStatusOK = (ret == nil)
 //@   ensures 0 <= n && n <= len(b)
-//@   ensures err == nil ==> n == len(b) || ghost.readStatusOK
-// (ghost.readStatusOK: the server answered a READ with STATUS(OK) -- neither data nor a failure; the count is then
-//  short with a nil error. The property statements quantify over failure statuses and well-formed replies; callers
-//  loop on a short nil-error count, so no wrong result is produced.)
-
+//@   ensures err == nil ==> n == len(b)
 //@ func (*File).readAtSequential
 //@   property C01, C13
 //@   requires fileOK(f)
@@ -345,10 +345,14 @@ package sftp
 //@   requires connOK(c)
 
 //@ func (*Client).stat
+//@   results fs, err
+//@   ensures err == nil ==> fs != nil
 //@   property C20, C03
 //@   requires connOK(c)
 
 //@ func (*Client).fstat
+//@   results fs, err
+//@   ensures err == nil ==> fs != nil
 //@   property C20, C03
 //@   requires connOK(c)
 
@@ -409,14 +413,25 @@ package sftp
 //@   ensures len(result) == p.blen
 
 //@ func (*File).WriteTo$3
-//@   property C20
+//@   property C20, C01
+//@   channel readCh invariant m.res != nil
 //@   requires pool != nil && pool.blen > 0 && pool.blen <= 0x7fffffff && pool.blen == chunkSize
 
 //@ func (*File).writeAtConcurrent$2
-//@   property C20
+//@   property C20, C01, C13
+//@   requires attr(errCh, lo) == attr(workCh, lo) && attr(errCh, hi) == attr(workCh, hi)
+//@   channel workCh invariant attr(ch, lo) <= m.off && m.off <= attr(ch, hi) && m.res != nil
+//@   channel errCh invariant m.err != nil && attr(ch, lo) <= m.off && m.off <= attr(ch, hi)
+//@   channel errCh nodrop
+//@   loop 1 invariant attr(errCh, lo) == attr(workCh, lo) && attr(errCh, hi) == attr(workCh, hi)
 
 //@ func (*File).readFromWithConcurrency$2
-//@   property C20
+//@   property C20, C01, C13
+//@   requires attr(errCh, lo) == attr(workCh, lo)
+//@   channel workCh invariant attr(ch, lo) <= m.off && m.res != nil
+//@   channel errCh invariant m.err != nil && attr(ch, lo) <= m.off
+//@   channel errCh nodrop
+//@   loop 1 invariant attr(errCh, lo) == attr(workCh, lo)
 
 //@ func (*File).Sync
 //@   property C20
@@ -1396,7 +1411,7 @@ package sftp
 //@   loop 2 invariant attr(errCh, lo) == off && attr(errCh, hi) == off + int64(len(b))
 //@   ensures f.handle == "" ==> n == 0 && err == os.ErrClosed
 //@   ensures 0 <= n && n <= len(b)
-//@   ensures err == nil ==> n == len(b) || ghost.readStatusOK
+//@   ensures err == nil ==> n == len(b)
 //@   ensures len(b) > f.c.maxPacket && !f.c.disableConcurrentReads && f.handle != "" && err != nil ==> n == int(ghost.gmin - off)
 // (reducer: the error kept is the one with the lowest offset among all chunk errors received, whatever the arrival
 //  order -- the receive is a havoc constrained only by the channel invariant -- and the count is that offset minus
@@ -1419,3 +1434,52 @@ package sftp
 //@   loop 1 invariant fileOK(f) && chunkSize == f.c.maxPacket && samearray(b, old(b)) && len(b) <= len(old(b)) && offset == off + int64(len(old(b)) - len(b))
 //@   loop 1 invariant attr(workCh, lo) == off && attr(workCh, hi) == off + int64(len(old(b)))
 //@   assert before call (*clientConn).dispatchRequest#1: arg2.(*sshFxpReadPacket).Offset == uint64(offset) && uint64(arg2.(*sshFxpReadPacket).Len) == uint64(len(rb)) && len(rb) >= 1 && len(rb) <= f.c.maxPacket && arg2.(*sshFxpReadPacket).Handle == f.handle && arg2.(*sshFxpReadPacket).ID == id && arg1 == res
+
+//@ func (*File).WriteTo$2
+//@   property C01, C20
+//@   requires fileOK(f) && chunkSize >= 1 && chunkSize <= 0x7fffffff
+//@   channel readCh invariant m.res != nil
+//@   loop 1 invariant fileOK(f) && chunkSize >= 1 && chunkSize <= 0x7fffffff
+//@   assert before call (*clientConn).dispatchRequest#1: arg2.(*sshFxpReadPacket).Offset == uint64(off) && uint64(arg2.(*sshFxpReadPacket).Len) == uint64(chunkSize) && arg2.(*sshFxpReadPacket).Handle == f.handle && arg2.(*sshFxpReadPacket).ID == id && arg1 == res
+
+//@ func (*File).writeAtConcurrent$1
+//@   property C01, C13, C20
+//@   requires fileOK(f) && off >= 0 && off <= 0x3fffffffffffffff && len(b) <= 0x3fffffffffffffff
+//@   requires attr(workCh, lo) == off && attr(workCh, hi) == off + int64(len(b))
+//@   channel workCh invariant attr(ch, lo) <= m.off && m.off <= attr(ch, hi) && m.res != nil
+//@   loop 1 invariant fileOK(f) && chunkSize == f.c.maxPacket && 0 <= read && read <= len(b)
+//@   loop 1 invariant attr(workCh, lo) == off && attr(workCh, hi) == off + int64(len(b))
+//@   assert before call (*clientConn).dispatchRequest#1: arg2.(*sshFxpWritePacket).Offset == uint64(old(off) + int64(read)) && uint64(arg2.(*sshFxpWritePacket).Length) == uint64(len(wb)) && arg2.(*sshFxpWritePacket).Data == wb && len(wb) >= 1 && len(wb) <= f.c.maxPacket && wb == b[read:read+len(wb)] && arg2.(*sshFxpWritePacket).Handle == f.handle && arg2.(*sshFxpWritePacket).ID == id && arg1 == res
+
+//@ ghost var wtEnd int64
+
+//@ func (*File).writeAtConcurrent
+//@   property C01, C13, C12
+//@   results n, err
+//@   requires fileOK(f) && off >= 0 && off <= 0x3fffffffffffffff && len(b) <= 0x3fffffffffffffff
+//@   assume after make errCh#1: attr(ret, lo) == off && attr(ret, hi) == off + int64(len(b))
+//@   assume after make workCh#1: attr(ret, lo) == off && attr(ret, hi) == off + int64(len(b))
+//@   channel errCh invariant m.err != nil && attr(ch, lo) <= m.off && m.off <= attr(ch, hi)
+//@   update after make errCh#1: ghost.gmin = math.MaxInt64
+//@   loop 2 ghost gmin
+//@   update after recv errCh#1: ghost.gmin = ite(ret1, min(ghost.gmin, ret0.off), ghost.gmin)
+//@   loop 2 invariant firstErr.off == ghost.gmin && (firstErr.err == nil <==> ghost.gmin == math.MaxInt64)
+//@   loop 2 invariant firstErr.err != nil ==> off <= firstErr.off && firstErr.off <= off + int64(len(b))
+//@   loop 2 invariant attr(errCh, lo) == off && attr(errCh, hi) == off + int64(len(b))
+//@   ensures 0 <= n && n <= len(b)
+//@   ensures err == nil ==> n == len(b)
+//@   ensures err != nil ==> n == int(ghost.gmin - off)
+//@   ensures f.offset == old(f.offset) && f.handle == old(f.handle)
+
+//@ func (*File).WriteTo
+//@   property C01, C12, C13
+//@   requires fileOK(f) && w != nil
+//@   assume after make writeCh#1: true
+//@   update after make writeCh#1: ghost.wtEnd = f.offset
+//@   loop 2 ghost wtEnd
+//@   update after recv cur#1: ghost.wtEnd = ite(ret1 && len(ret0.b) > 0, ret0.off + int64(len(ret0.b)), ghost.wtEnd)
+//@   loop 2 invariant fileOK(f) && w != nil && f.offset == ghost.wtEnd && pool != nil
+//@   assert before call (io.Writer).Write#1: arg1 == packet.b
+//@   ensures f.handle == old(f.handle)
+// (reducer: the offset always equals the end of the last chunk that carried data -- or the initial offset --
+//  and exactly the received bytes are handed to the writer, in the order of the cur/next chain)
